@@ -41,6 +41,33 @@ def elem_ref(sl, i):
     return Ref(sl.cell, sl.path + (sl.start + i,))
 
 
+_APPROX_UF = {}
+
+
+def approx_base(dom, name, a, b, extra):
+    """f64 base relation of the approx crate.  Concrete operands: approx 0.5's definition; symbolic: uninterpreted."""
+    if all(x.conc is not None for x in [a, b] + list(extra)) and isinstance(a.conc, float):
+        x, y = a.conc, b.conc
+        eps = extra[0].conc
+        if name == "abs_diff_eq":
+            return (x - y if x > y else y - x) <= eps
+        mr = extra[1].conc
+        if x == y:
+            return True
+        if x in (float("inf"), float("-inf")) or y in (float("inf"), float("-inf")):
+            return False
+        d = abs(x - y)
+        if d <= eps:
+            return True
+        return d <= max(abs(x), abs(y)) * mr
+    sort = a.t.sort()
+    key = (name, sort.name())
+    if key not in _APPROX_UF:
+        n = 3 if name == "abs_diff_eq" else 4
+        _APPROX_UF[key] = z3.Function("ADE" if name == "abs_diff_eq" else "REL", *([sort] * n + [z3.BoolSort()]))
+    return _APPROX_UF[key](a.t, b.t, *[x.t for x in extra])
+
+
 def try_builtin(it, callee, args):
     c = callee
     dom = it.dom
@@ -261,6 +288,44 @@ def try_builtin(it, callee, args):
     if re.match(r"^(?:std::iter::|core::iter::)?once::<.*>$", c):
         used("iter::once")
         return OnceIter(args[0])
+    # ---- approx: base relations on f64 are uninterpreted predicates; arrays / slices are element-wise conjunctions
+    m = re.match(r"^<(.*) as (?:approx::)?(AbsDiffEq|RelativeEq)(?:<.*>)?>::(abs_diff_eq|relative_eq|default_epsilon|default_max_relative)$", c, re.S)
+    if m:
+        selfty, name = m.group(1).strip(), m.group(3)
+        if name in ("default_epsilon", "default_max_relative") and selfty == "f64":
+            used("approx::" + name)
+            return dom.const(2.220446049250313e-16)
+        if name in ("abs_diff_eq", "relative_eq"):
+            a, b = args[0], args[1]
+            va, vb = deref(a), deref(b)
+            extra = [deref(x) for x in args[2:]]
+            if isinstance(va, Num) and isinstance(vb, Num):
+                used("approx f64::" + name + " (uninterpreted base relation)")
+                return approx_base(dom, name, va, vb, extra)
+            if isinstance(va, (Array, VecV)) or isinstance(a, SliceRef):
+                used("approx [T]::" + name + " (length check + element-wise conjunction)")
+                sa, sb = as_slice(a), as_slice(b)
+                if len(sa) != len(sb):
+                    return False
+                acc = True
+                for i in range(len(sa)):
+                    ra, rb = elem_ref(sa, i), elem_ref(sb, i)
+                    ea, eb = deref(ra), deref(rb)
+                    if isinstance(ea, Num):
+                        r = approx_base(dom, name, ea, eb, extra)
+                    else:
+                        f = it.p.find_method(name, [ra, rb] + list(args[2:]))
+                        if f is None:
+                            raise Unsupported("no crate impl of %s for slice element" % name)
+                        r = it.call_function(f, [ra, rb] + list(args[2:]))
+                    # `all` short-circuits: later elements are not evaluated once one is false
+                    if isinstance(r, bool):
+                        if not r:
+                            return False
+                        continue
+                    if not it.decide(r):
+                        return False
+                return True
     # ---- Default for f64 / arrays of f64
     if re.match(r"^<f64 as Default>::default$", c):
         return dom.const(0.0)
